@@ -2,11 +2,11 @@
 # tools/seedimport.sh <Cnn> — takes the second-round results of a seeding sub-agent from /tmp/seed2-out/<Cnn>/ (patch-N.diff,
 # demo-N_test.go, meta-N.json, N=1..3), files them as N+3 under /tmp/seed-out/<Cnn>/, confirms each independently
 # (tools/seedverify.sh, appended to verify.log) and runs the property's quick check against it (appended to matrix.jsonl).
-ID="$1"; SRC=${SEED2_SRC:-/tmp/seed2-out}/$ID; DST=/tmp/seed-out/$ID; OUT=/tmp/seed-out/matrix.jsonl
+ID="$1"; SRC=${SEED2_SRC:-/tmp/seed2-out}/$ID; DST=/tmp/seed-out/$ID; OUT=/tmp/seed-out/matrix.jsonl; OFF=${SEED_OFFSET:-3}
 mkdir -p "$DST"
 for n in 1 2 3; do
   [ -f "$SRC/patch-$n.diff" ] || continue
-  m=$((n+3))
+  m=$((n+OFF))
   cp "$SRC/patch-$n.diff" "$DST/patch-$m.diff"; cp "$SRC/demo-${n}_test.go" "$DST/demo-${m}_test.go"
   sed "s#/tmp/mut2-$ID/#/tmp/mut-$ID/#g" "$SRC/meta-$n.json" > "$DST/meta-$m.json"
   "$(dirname "$0")/seedverify.sh" "$ID" "$m" | tail -1 | tee -a /tmp/seed-out/verify.log
